@@ -48,6 +48,27 @@ def subst_hashmap(ws):
     return None
 
 
+def subst_psl_strings(ws):
+    """public-suffix/src/lib.rs: the three `rfind('.')` calls and the two empty-label tests -> byte-loop models (cfg(kani)) / the same std calls
+    (natively), defined in the spliced verif_str module (F10)."""
+    f = "public-suffix/src/lib.rs"
+    sites = [("s.rfind('.')", "crate::verif_str::rfind_dot(s)", 1), ("domain.rfind('.')", "crate::verif_str::rfind_dot(domain)", 1),
+             ("domain[..i].rfind('.')", "crate::verif_str::rfind_dot(&domain[..i])", 1),
+             ("domain.starts_with('.') || domain.ends_with('.') || domain.contains(\"..\")", "crate::verif_str::has_empty_label(domain)", 2)]
+    src = open(__import__("os").path.join(ws.ws, f)).read()
+    for old, new, cnt in sites:
+        # only the code before the spliced module is rewritten
+        head = src.split("#[cfg(kani)]")[0]
+        if head.count(old) != cnt:
+            return "public-suffix/src/lib.rs: expected %d occurrence(s) of `%s`, found %d - the string-scanning call sites changed, the lookup harnesses cannot be built" % (cnt, old, head.count(old))
+    for old, new, cnt in sites:
+        head, sep, tail = src.partition("#[cfg(kani)]")
+        src = head.replace(old, new) + sep + tail
+        ws.substitutions.append({"file": f, "old": old, "new": new})
+    open(__import__("os").path.join(ws.ws, f), "w").write(src)
+    return None
+
+
 def prop(pid, **kw):
     PROPS[pid] = kw
 
@@ -99,8 +120,8 @@ def _scheds(k):
 
 def _c16_harnesses():
     hs = []
-    for n in (0, 1, 56, 57, 58, 115, 116, 117, 175):
-        tier = "quick" if n in (0, 1, 56, 57, 58, 116) else "thorough"
+    for n in (0, 1, 56, 57, 58, 114, 115, 116, 117, 175):
+        tier = "quick" if n in (0, 1, 56, 57, 58, 114, 115, 116) else "thorough"
         hs.append(H("c16_sender_len_%d" % n, TR, tier=tier, timeout=(400, 3600),
                     bounds="payload length exactly %d; all channel ids, all 9 commands, all payload bytes: bytes written by Message::send == reference wire image" % n))
     for n in (0, 1, 56, 57, 58, 115, 116, 117, 174, 175, 176, 234, 293):
@@ -409,18 +430,24 @@ prop("C10",
          H("c10_table_text_is_ascii", PS, bounds="every byte offset of TEXT"),
          H("c10_node_label_no_panic", PS, bounds="every node index, real node_label"),
          H("c10_table_twin", PS, twin=True, bounds="every node index"),
+         H("c10_syn_two_labels", PS, timeout=(1500, 3600), bounds="synthetic 5-node table (rules c, b.c, *.d, !a.d, *.b.d); every name L.L of two single-letter labels over {a,b,c,d,x}"),
+         H("c10_syn_multibyte_label", PS, timeout=(1500, 3600), bounds="same table; the 4-byte names '\u00e9.L' for every letter L of {a,b,c,d,x}"),
+         H("c10_syn_three_labels", PS, tier="thorough", timeout=(1500, 5400), bounds="same table; every name L.L.L of three single-letter labels over {a,b,c,d,x}"),
      ],
+     prepare=[subst_psl_strings],
      functions=["ListProvider::<T>::{public_suffix, find, node_label}", "<ListProvider<T> as EffectiveTLDProvider>::effective_tld_plus_one",
                 "the generated constants TLDList::{NODES, CHILDREN, TEXT, NUM_TLD}"],
-     stubs=[],
-     explanation="well-formedness of the shipped table as one inductive step of 'no lookup can index out of bounds' (symbolic node / children / text "
-                 "index into the real constants, real node_label on every node index)",
+     stubs=["str::rfind('.') (3 call sites) and the empty-label test starts_with / ends_with / contains(\"..\") (2 call sites) are rewritten, in the scratch copy only, to byte-loop models "
+            "under cfg(kani) (natively: the std calls); everything else of public_suffix / find / node_label / effective_tld_plus_one is the real code, generic over a synthetic Table"],
+     explanation="(a) well-formedness of the shipped table as one inductive step of 'no lookup can index out of bounds' (symbolic node / children / text "
+                 "index into the real constants, real node_label on every node index); (b) the real lookup algorithm on a synthetic 5-node table containing a normal rule, a longer normal rule, "
+                 "a wildcard rule, an exception rule and a wildcard rule nested below a wildcard, against a reference matcher: for every name of 2 (thorough: 3) single-letter labels the "
+                 "public suffix has the right number of labels and starts at a label boundary, and the eTLD+1 has exactly one more label or is an error when there is none",
      outside=["rule-by-rule agreement of the 9.8k-rule compiled table with public_suffix_list.dat: a finite comparison of concrete lookups, a solver adds nothing "
               "to it and symbolic strings over the 30 kB TEXT constant are out of reach - NOT decided; a bit flip that keeps the table well-formed is not detected",
-              "the lookup algorithm itself (public_suffix / effective_tld_plus_one): str::rfind / contains / comparisons on symbolic strings do not finish in CBMC even for "
-              "3-byte names over a 4-node synthetic table (measured, 300 s); the harnesses are kept in the splice file but not registered",
+              "the lookup algorithm on longer names, multi-byte labels, four or more labels (7-byte names: CBMC > 16 GB), the std string-scanning functions themselves (modelled)",
               "Unicode input, sortedness of sibling labels"],
-     level_text="PARTIAL claim: well-formedness of the shipped table only; neither the lookup algorithm nor the table's agreement with the .dat file is decided.",
+     level_text="PARTIAL claim: well-formedness of the shipped table, and the lookup algorithm on a synthetic table for names of up to 3 single-letter labels; the table's agreement with the .dat file is not decided.",
      )
 
 SM = "utils::serde::verif_proofs"
@@ -566,3 +593,26 @@ PROPS["C12"]["e2"] = PROPS["C12"]["e2"] + ["setters"]
 PROPS["C12"]["functions"] += ["E2: AuthenticatorData::{set_attested_credential_data, set_make_credential_extensions, set_assertion_extensions} (MIR)"]
 PROPS["C12"]["explanation"] += (" E2 (setters): on every returning path of the three section setters the section field is written to Some(..) exactly when the matching bit (AT / ED) "
                                 "is or-ed into the flags, and never the other bit; replayed natively with real sections (encode, inspect bits, decode, re-encode).")
+
+# round 4: the COSE public-key converter (named in C15's statement)
+PROPS["C15"]["e2"] = PROPS["C15"]["e2"] + ["fixed_slices"]
+PROPS["C15"]["functions"] += ["E2: passkey_authenticator::public_key_der_from_cose_key / private_key_from_cose_key (MIR)"]
+PROPS["C15"]["explanation"] += (" E2 (COSE converter): on every path of public_key_der_from_cose_key that reaches GenericArray::from_slice (which panics on a length mismatch; locals "
+                                "assigned inside closures are treated as arbitrary after the call that runs the closure; at most 4 visits of the parameter loop) z3 is asked whether the "
+                                "branch conditions allow a vector length other than the array length (32).")
+
+# round 4 (batch B): which members are required / defaulted (C13); the lenient base64 wrappers (C14)
+PROPS["C13"]["e2"] = PROPS["C13"]["e2"] + ["requiredness"]
+PROPS["C13"]["explanation"] += (" E2 (requiredness): in each generated visit_map, on the paths through the end of the map, exactly the members the CTAP specification requires "
+                                "(table in mirsym/checks.py: makeCredential 1-4, getAssertion 1-2, getInfo 1 and 3, hmac-secret input 1-3) are resolved through "
+                                "ok_or_else(missing_field), all others through unwrap_or_default; replayed natively by decoding maps that hold only the required members (defaults up=true, "
+                                "rk=uv=false) and maps with one required member removed.")
+PROPS["C14"]["engines"] = [_e2.engine]
+PROPS["C14"]["e2"] = ["base64"]
+PROPS["C14"]["trusted"] = E2_TRUST
+PROPS["C14"]["functions"] = PROPS["C14"].get("functions", []) + ["E2: passkey_types::encoding::{base64, base64url, try_from_base64, try_from_base64url} (MIR)"]
+PROPS["C14"]["explanation"] += (" E2 (base64 wrappers): the two decoders strip trailing padding with trim_end_matches and decode that with an encoding that expects no padding (BASE64_NOPAD, or a "
+                                "Specification whose padding is None); the two encoders use the NOPAD encodings. The data-encoding crate itself is an environment call; replayed natively: 192 "
+                                "textual presentations (standard / url-safe, padded / unpadded) of byte strings of length 0..=7, byte arrays, and encode-decode inverses.")
+PROPS["C14"]["level_text"] = "PARTIAL claim: the number-presentation kernel (E1) and the shape of the four base64 wrappers (E2); serde_json parsing of the option structures is not decided."
+PROPS["C14"]["technique"] = "Kani/CBMC bounded model checking (StringOrNum) + symbolic path execution of rustc MIR (base64 wrappers), native replay"
